@@ -462,6 +462,32 @@ def _loop_variant(w: ast.While, fi: FunctionInfo, corpus: Corpus) -> str | None:
             changes = True
         if changes and not modified_coll:
             return f"uniquifier: the candidate embeds a counter incremented every iteration; {coll} is finite and unmodified"
+    # tree descent: on every cyclic path the cursor is rebound to one of its own children (finite tree)
+    for st in w.body:
+        if not (isinstance(st, ast.Assign) and len(st.targets) == 1 and isinstance(st.targets[0], ast.Name)):
+            continue
+        cur = st.targets[0].id
+
+        def from_children(e, depth=0):
+            """``e`` denotes a member / sub-list of ``<cur>.children``."""
+            if depth > 3:
+                return False
+            if isinstance(e, ast.Subscript):
+                return from_children(e.value, depth + 1)
+            if isinstance(e, ast.Attribute) and e.attr == "children" and isinstance(e.value, ast.Name) and e.value.id == cur:
+                return True
+            if isinstance(e, ast.ListComp) and len(e.generators) == 1:
+                gen = e.generators[0]
+                return from_children(gen.iter, depth + 1) and isinstance(e.elt, ast.Name) and isinstance(gen.target, ast.Name) and e.elt.id == gen.target.id
+            if isinstance(e, ast.Name):
+                defs = [d for d in w.body if isinstance(d, ast.Assign) and len(d.targets) == 1 and isinstance(d.targets[0], ast.Name) and d.targets[0].id == e.id]
+                return len(defs) == 1 and e.id != cur and from_children(defs[0].value, depth + 1)
+            return False
+
+        if isinstance(st.value, ast.Subscript) and from_children(st.value):
+            others = [d for d in ast.walk(w) if isinstance(d, ast.Assign) and any(isinstance(t, ast.Name) and t.id == cur for t in d.targets) and d is not st]
+            if not others and _top_level_or_all_paths(w, lambda c: c is st):
+                return f"tree descent: `{cur}` is rebound to one of its own children on every cyclic path (finite tree)"
     return None
 
 
@@ -552,8 +578,15 @@ def mutants(corpus: Corpus):
     # 1. drop the try around tokenize_html in html_to_nodes
     f = h2n.func("html_to_nodes")
     tr = find_stmt(f, lambda s: isinstance(s, ast.Try))
-    if tr is not None:
-        out.append(Mutant("c01-html-try-dropped", "C01.R1", h2n.rel, unwrap_try(f, tr), expect="HTMLParser.feed" if False else "feed", canary=True))
+    # (since the F23 repair the only raise of HTMLParser.feed is caught inside the parser class itself:
+    #  the mutant also reverts that repair, otherwise nothing can escape and dropping the try is harmless)
+    ph = corpus.mod("parsers.parse_html")
+    pms = ph.functions.get("HtmlToAst.parse_marked_section")
+    ptr = find_stmt(pms, lambda s: isinstance(s, ast.Try)) if pms is not None else None
+    if tr is not None and ptr is not None:
+        out.append(Mutant("c01-html-try-dropped", "C01.R1", h2n.rel, unwrap_try(f, tr), expect="feed", canary=True, more={ph.rel: unwrap_try(pms, ptr)}))
+    elif tr is not None:
+        out.append(Mutant("c01-html-try-dropped", "C01.R1", h2n.rel, unwrap_try(f, tr), expect="feed", canary=True))
     else:
         out.append(("c01-html-try-dropped", "no try in html_to_nodes"))
     # 2. narrow except Exception in render_substitution
